@@ -27,6 +27,7 @@
 -/
 import Tranp.Driver.Common
 import Tranp.Model.Infer
+import Tranp.Model.InferOps
 import Tranp.Model.PyEval
 import Tranp.Model.InferLambda
 
@@ -199,6 +200,19 @@ structure St where
   unionTaken : Bool := false
   ct : ClassTable := []
   env : Env := []
+  ps : OpParams := []
+
+def toOpParams : Sx → Option OpParams
+  | .node rows => allSome (rows.map fun r => match r with
+    | .node [.atom c, .atom d, t] => do pure ((s2l c, s2l d), ← toTy t)
+    | _ => none)
+  | _ => none
+
+/-- `op ty op ty …` of a `binop` line -/
+def toSteps : List String → Option (List (BOp × Ty))
+  | [] => some []
+  | o :: t :: rest => do pure ((← toBOp o, ← parseAll t >>= toTy) :: (← toSteps rest))
+  | _ => none
 
 def step (st : St) : List String → St × String
   | ["new"] => ({ unionTaken := false }, "ok")
@@ -277,6 +291,27 @@ def step (st : St) : List String → St × String
     | some Γ, some ex =>
       match infer st.ct Γ ex st.unionTaken with
       | (.ok t, s) => ({ st with unionTaken := s }, "ok " ++ t.render)
+      | (.error er, s) => ({ st with unionTaken := s }, er.toString)
+    | _, _ => (st, "bad-op")
+  | ["opparams", p] =>
+    match parseAll p >>= toOpParams with
+    | some ps => ({ st with ps := ps }, "ok")
+    | none => (st, "bad-op")
+  | "binop" :: l :: rest =>
+    match parseAll l >>= toTy, toSteps rest with
+    | some lt, some steps =>
+      (match foldBinAny st.ct st.ps lt steps with
+       | .ok t => (st, "ok " ++ t.render)
+       | .error er => (st, er.toString))
+    | _, _ => (st, "bad-op")
+  | ["spread", env, e] =>
+    match parseAll env >>= toEnv, parseAll e >>= toExpr with
+    | some Γ, some ex =>
+      match infer st.ct Γ ex st.unionTaken with
+      | (.ok t, s) =>
+        (match onSpread t with
+         | .ok a => ({ st with unionTaken := s }, "ok " ++ a.render)
+         | .error er => ({ st with unionTaken := s }, er.toString))
       | (.error er, s) => ({ st with unionTaken := s }, er.toString)
     | _, _ => (st, "bad-op")
   | ["pytype", env, e] =>
